@@ -305,7 +305,31 @@ func ruleLocksetDeep(w *World, r *Report) {
 		return "", "", "", false
 	}
 	runLocksetX(w, r, "LOCKSET-DEEP", guards, extra,
-		"deep guard (thorough tier): a stored fact reached through the guarded fact map is guarded too; every write through it (directly, or by a callee that may write through the parameter it is handed, by MOD analysis) happens under the state's write lock", 2)
+		"deep guard (thorough tier): a stored fact reached through the guarded fact map is guarded too; every write through it (directly, or by a callee that may write through the parameter it is handed, by MOD analysis) happens under the state's write lock", 1)
+	// what was examined (so that "no finding" is not "nothing looked at")
+	sites := 0
+	for _, fn := range w.Funcs {
+		owner, ok := stateOwnerOf(a, fn)
+		if !ok || stateFactField[owner] == "" || isTestFile(w, fn) {
+			continue
+		}
+		allInstrs(fn, func(in ssa.Instruction) {
+			c := callOf(in)
+			if c == nil || c.StaticCallee() == nil || !w.IsRulio(c.StaticCallee()) {
+				return
+			}
+			for _, arg := range c.Args {
+				if dependsOnProjection(arg, func(x ssa.Value) bool { return loadedFromFactMap(owner, x) }) {
+					sites++
+					return
+				}
+			}
+		})
+	}
+	if sites == 0 {
+		undecided("LOCKSET-DEEP: no call site hands a stored fact to a callee (the matcher for stored facts is dead)")
+	}
+	r.ok("LOCKSET-DEEP", "scope=state implementations", "", itoa(sites)+" call sites hand a stored fact to a rulio callee; each callee's may-modify summary was consulted")
 }
 
 // dependsOnProjection: v is a projection (element, field, conversion, assertion) of a value satisfying pred.
